@@ -101,4 +101,6 @@ def main(argv=None):
 
 
 if __name__ == "__main__":
-    sys.exit(main())
+    rc = main()
+    env.cleanup_workdir()
+    sys.exit(rc)
